@@ -29,6 +29,7 @@ Partial charges of the result are outside this property's check (D13, work packa
 import Mathlib.Algebra.Field.Rat
 import Mathlib.Algebra.Order.Field.Basic
 import Molli.Lemmas.JoinGeom
+import Molli.Props.C11
 namespace Molli.Props.C12
 open Molli.Model.Geom Molli.Model.Join Molli.Lemmas.Geom Molli.Lemmas.Join Molli.Lemmas.JoinGeom
 
@@ -196,6 +197,19 @@ theorem joinGeomOK_repaired (v1n v2n rv : V3 α) (tol n : α)
   · refine ⟨h1, h2, ?_, ?_⟩ <;> unfold rotVecFull <;> rw [if_neg hbr]
     · exact rotVec_isRot v2n v1n.neg h2 hb (hgen hbr)
     · exact rotVec_maps v2n v1n.neg h2 hb (hgen hbr)
+
+/-- Over an ordered field (ℚ, ℝ) nothing but the defining equations is needed: for unit attachment
+directions, `0 ≤ tol < 1` (the code uses 1e-6) and `n` the norm of the deterministic helper, the
+repaired join's rotation satisfies `JoinGeomOK` — for attachment vectors in general position,
+exactly parallel and exactly antiparallel alike.  Hence `join_rigid`, `join_bond_length`,
+`join_bond_direction`, `join_fragment_faces` hold for EVERY pair of poses. -/
+theorem joinGeomOK_repaired_ordered {β : Type} [Field β] [LinearOrder β] [IsStrictOrderedRing β]
+    (v1n v2n rv : V3 β) (tol n : β) (h1 : v1n.dot v1n = 1) (h2 : v2n.dot v2n = 1)
+    (ht0 : 0 ≤ tol) (ht1 : tol < 1)
+    (hn : n * n = 1 - v1n.neg.get (argminAbs v1n.neg) * v1n.neg.get (argminAbs v1n.neg)) :
+    JoinGeomOK .repaired v1n v2n tol n rv := by
+  obtain ⟨hr, hm⟩ := Molli.Props.C11.rotVecFull_spec_ordered v2n v1n.neg rv tol n h2 (neg_unit v1n h1) ht0 ht1 hn
+  exact ⟨h1, h2, hr, hm⟩
 
 /-- "each fragment keeps its internal geometry and handedness (it is moved rigidly, never
 mirrored)": the result's coordinates are A's remaining rows under ONE rigid motion followed by
